@@ -53,14 +53,18 @@ class Sched:
         self.deadlock = False
         self.exhausted = False
         self._local = _real.local()
+        self.fair_limit = 150
+        self.streak = 0
+        self.rr = 0
 
     # ------------------------------------------------------------ for managed threads
     def me(self):
         return getattr(self._local, 'ts', None)
 
     def note(self, kind, *payload):
+        """Log entry: (step, thread id, kind, payload tuple, virtual time)."""
         ts = self.me()
-        self.log.append((self.steps, ts.tid if ts else -1, kind) + payload)
+        self.log.append((self.steps, ts.tid if ts else -1, kind, payload, self.vtime))
 
     def yield_(self, kind='op', info=None):
         ts = self.me()
@@ -171,6 +175,17 @@ class Sched:
             chosen = self.policy.choose(ids, self.prev, self.steps)
             if chosen not in ids:
                 chosen = ids[0]
+            # weak fairness: a thread that keeps running while others could run is pre-empted after
+            # `fair_limit` consecutive steps (a spinning thread must not starve the thread it waits for)
+            if chosen == self.prev:
+                self.streak += 1
+                if self.streak > self.fair_limit and len(ids) > 1:
+                    others = [i for i in ids if i != chosen]
+                    chosen = others[self.rr % len(others)]
+                    self.rr += 1
+                    self.streak = 0
+            else:
+                self.streak = 0
             self.choices.append((ids, chosen, self.prev))
             self.prev = chosen
             self.steps += 1
@@ -258,6 +273,8 @@ class Sched:
             def set(self):
                 sched.yield_('event_set')
                 self.flag = True
+                woken = [ts.tid for ts in sched.threads if ts.status == 'blocked' and ts.wait_on is self]
+                sched.note('event_set', tuple(woken))
                 sched.wake(self)            # threads already waiting are released even if clear() follows at once
 
             def clear(self):
